@@ -260,7 +260,9 @@ pub fn check_c01(sc: &H1Scenario, out: &H1Out) -> Vec<Violation> {
                 if !last_is_4xx && lost_4xx && closed {
                     vs.push(Violation::new(
                         "C01.reject-4xx-close",
-                        "4xx-dropped-with-unflushed-transport-buffer",
+                        // with a disconnect timeout configured the connection ends through the
+                        // time-bounded shutdown, which flushes first; without one it is dropped at once
+                        if sc.cfg.disc_timeout_ms == 0 { "4xx-dropped-with-unflushed-transport-buffer:no-disconnect-timeout" } else { "4xx-dropped-with-unflushed-transport-buffer" },
                         format!("malformed {:?} at position {}: the 4xx was written into the transport ({} bytes staged) but the connection was dropped while poll_flush was still Pending, so it never reached the peer", class, at, co.lost_staged.len()),
                     ));
                 } else if !last_is_4xx || p.tail != Tail::Clean || finals.len() != at + 1 {
@@ -529,7 +531,7 @@ pub fn check_c02(sc: &H1Scenario, out: &H1Out) -> Vec<Violation> {
         let ka_drop = matches!(sc.cfg.keep_alive, Ka::TimeoutMs(_)) && sc.cfg.disc_timeout_ms == 0 && co.shutdown_called.is_none() && co.dropped.is_some() && co.result.as_ref().map(|r| r.0.is_ok()).unwrap_or(false) && co.seen.iter().all(|s| s.answered.is_some());
         vs.push(Violation::new(
             "C02.count-order",
-            if later_body_failed { "missing-response:buffered-responses-dropped-by-later-body-failure" } else if lost_unflushed { "missing-response:dropped-with-unflushed-transport-buffer" } else if ka_drop { "missing-response:keep-alive-timer-expired-while-response-unwritten" } else { "missing-response" },
+            if later_body_failed && lost_unflushed && sc.cfg.disc_timeout_ms == 0 { "missing-response:buffered-responses-dropped-by-later-body-failure:unflushed-transport-no-disconnect-timeout" } else if later_body_failed { "missing-response:buffered-responses-dropped-by-later-body-failure" } else if lost_unflushed { "missing-response:dropped-with-unflushed-transport-buffer" } else if ka_drop { "missing-response:keep-alive-timer-expired-while-response-unwritten" } else { "missing-response" },
             format!("{} handlers answered and finished their bodies but only {} complete final responses were written (connection closed: {}, task done: {}, result: {:?})", expected_min, complete_finals, closed, co.task_done, co.result.as_ref().map(|r| &r.0)),
         ));
     }
